@@ -1972,3 +1972,53 @@ func c01r16(rc *core.RC) {
 		rc.Unknown("decoder.compileStruct/promotions", dfd.Pos(), "found %d promotion loops over an embedded struct decoder's field map (confirmed: 2)", k)
 	}
 }
+
+// ---- C01.R17 sizes and offsets are not narrowed below 32 bits ----
+
+// The compiler stores the element size of slices and arrays, member offsets and frame lengths in Opcode fields; the
+// interpreters compute addresses from them (data + idx*size). The values come from the type descriptor as uintptr.
+// A conversion of such a value to an integer type of fewer than 32 bits truncates for large types (an element of 64
+// KiB or more with a 16-bit size: every element after the first is read from the wrong address).
+func c01r17(rc *core.RC) {
+	p := rc.P
+	n := 0
+	for _, fd := range p.Funcs("encoder") {
+		if fd.Body == nil {
+			continue
+		}
+		info := p.Info(fd)
+		fn := p.FuncName(fd)
+		k := 0
+		ast.Inspect(fd.Body, func(m ast.Node) bool {
+			call, ok := m.(*ast.CallExpr)
+			if !ok || len(call.Args) != 1 {
+				return true
+			}
+			tv, isConv := info.Types[call.Fun]
+			if !isConv || !tv.IsType() {
+				return true
+			}
+			to, ok := tv.Type.Underlying().(*types.Basic)
+			if !ok || to.Info()&types.IsInteger == 0 {
+				return true
+			}
+			from := info.TypeOf(call.Args[0])
+			if from == nil || from.String() != "uintptr" {
+				return true
+			}
+			if v := info.Types[call.Args[0]]; v.Value != nil {
+				return true
+			}
+			k++
+			n++
+			rc.Touch(fn)
+			key := fmt.Sprintf("%s/uintptr-conversion#%d at-least-32-bits", fn, k)
+			bits := map[types.BasicKind]int{types.Int8: 8, types.Uint8: 8, types.Int16: 16, types.Uint16: 16, types.Int32: 32, types.Uint32: 32, types.Int64: 64, types.Uint64: 64, types.Int: 32, types.Uint: 32, types.Uintptr: 32}[to.Kind()]
+			rc.Check(bits >= 32, key, call.Pos(), "a size, offset or address taken from a type descriptor (uintptr) is converted to a type of at least 32 bits (%s): narrower, it is cut for large types and the interpreters compute element addresses from the remainder", core.Src(p.Fset, call))
+			return true
+		})
+	}
+	if n < 4 {
+		rc.Unknown("encoder/uintptr-conversions", token.NoPos, "found %d conversions of a uintptr to another integer type in the encoder package", n)
+	}
+}
